@@ -161,6 +161,56 @@ for idx, v in enumerate(VALUES):
         if "payload" in upd:
             failures.append({"class": "key-rewritten-with-equal-content-reported-as-updated", "value": repr(v)[:200]})
 
+# ---- data digests are functions of the content that flowed: an operation that updates its payload object in place is recorded
+#      exactly like one that builds a new object with the same value (input of node k+1 = output of node k) ----------------------
+class ScaleInPlace(FloatOperation):
+    """same arithmetic as FloatMultiplyOperation, reusing the input object"""
+
+    def _process_logic(self, data, factor: float):
+        data.data = data.data * factor
+        return data
+
+
+class AddInPlace(FloatOperation):
+    def _process_logic(self, data, addend: float):
+        data.data = data.data + addend
+        return data
+
+
+from semantiva.examples.test_utils import FloatAddOperation
+
+
+def _sers(ops, detail, tag):
+    path = tmp / f"inplace_{tag}_{detail.replace(',', '_')}.jsonl"
+    nodes = [{"processor": ops[0], "parameters": {"factor": 2.0}}, {"processor": ops[1], "parameters": {"addend": 1.0}}, {"processor": ops[0], "parameters": {"factor": 3.0}}]
+    drv = JsonlTraceDriver(str(path), detail=detail)
+    try:
+        Pipeline(nodes, trace=drv).process(Payload(FloatDataType(3.0), ContextType({})))
+    finally:
+        drv.close()
+    return [json.loads(l) for l in path.read_text().splitlines() if l.strip() and json.loads(l).get("record_type") == "ser"]
+
+
+for detail in ("hash", "all"):
+    evaluations += 2
+    distinct.add(("in-place-operation-digests", detail))
+    try:
+        ref, got = _sers((FloatMultiplyOperation, FloatAddOperation), detail, "copy"), _sers((ScaleInPlace, AddInPlace), detail, "inplace")
+    except Exception as e:       # noqa
+        failures.append({"class": "in-place-operation-case-raised", "detail": detail, "exc": repr(e)[:200]})
+        continue
+    for k, (r_, g_) in enumerate(zip(ref, got)):
+        for slot in ("input_data", "output_data"):
+            a, b = (r_.get("summaries") or {}).get(slot) or {}, (g_.get("summaries") or {}).get(slot) or {}
+            for fld_ in ("sha256", "repr"):
+                if fld_ in a and a.get(fld_) != b.get(fld_):
+                    failures.append({"class": "data-digest-is-not-a-function-of-the-content-that-flowed", "detail": detail, "node": k, "slot": slot, "field": fld_,
+                                     "in_place": b.get(fld_), "new_object": a.get(fld_)})
+    for k in range(len(got) - 1):
+        o_, i_ = (got[k].get("summaries") or {}).get("output_data") or {}, (got[k + 1].get("summaries") or {}).get("input_data") or {}
+        if o_.get("sha256") != i_.get("sha256"):
+            failures.append({"class": "data-digest-is-not-a-function-of-the-content-that-flowed", "detail": detail, "node": k, "slot": "output->next input"})
+
 # ---- created_keys / updated_keys against the set-difference definition, exhaustively over small contexts whose values include
 #      None and other falsy values (a key present with value None is PRESENT) ---------------------------------------------------
 import itertools as _it
@@ -182,7 +232,7 @@ distinct.add(("delta-exhaustive", len(STATES)))
 
 import shutil
 shutil.rmtree(tmp, ignore_errors=True)
-print(json.dumps({"bound": "delta: 2 keys x 8 before-states x 8 after-states (absent, None, 0, 1, '', 'x', [1], False) exhaustively; 3 processors (source with a default, operation with a required parameter, operation with required + defaulted parameter) x every placement of each parameter in {configuration, context, neither}",
+print(json.dumps({"bound": "data digests of 3-node pipelines with in-place vs copying operations x 2 detail levels; delta: 2 keys x 8 before-states x 8 after-states (absent, None, 0, 1, '', 'x', [1], False) exhaustively; 3 processors (source with a default, operation with a required parameter, operation with required + defaulted parameter) x every placement of each parameter in {configuration, context, neither}",
                   "evaluations": evaluations, "distinct_nontrivial": len(distinct),
                   "rule": "distinct = (processor, placement vector) of runs that resolved; SER of the last node read back from the JSONL trace",
                   "failures": failures[:40], "samples": samples}, default=str))
